@@ -192,3 +192,7 @@ def run(chk):
         if hit and bad:
             chk.violation("concurrency", hit["what"], hit)
     chk.samples = [o.j() for o in chk.obs if "schedule" in o.name or "Once.Do" in o.name][:6]
+
+
+def safety_net(chk):
+    return race_battery(chk.seed)
